@@ -7,7 +7,7 @@ Lemma new_block_ok s i ts s' b : new_block s i ts = (s', b) -> NoDup ts -> blk_o
 Proof.
   intros H ND. destruct (new_block_spec _ _ _ _ _ H) as (Eb & _ & _ & _ & Etk & _ & Et & _ & Hc).
   split; rewrite Et; [|assumption].
-  intros j t Hj. unfold hnd. rewrite Etk. rewrite (rehandle_in _ _ _ _ j t ND Hj). f_equal.
+  intros j t Hj. apply hnd_of_raw. unfold raw. rewrite Etk, (new_block_sid _ _ _ _ _ H). rewrite (rehandle_in _ _ _ _ _ j t ND Hj). reflexivity.
 Qed.
 
 (* what a run of allocations achieves *)
@@ -22,7 +22,8 @@ Definition BB (s : store) (i : Z) (ts : list positive) (s' : store) (bs : list p
   (forall b, In b bs -> toks s' b <> [] /\ blk_ok s' b) /\
   (ts <> [] -> bs <> []) /\
   (forall t, tsz (s_toks s') t = tsz (s_toks s) t /\ txt s' t = txt s t) /\
-  (forall t, ~ In t ts -> tget (s_toks s') t = tget (s_toks s) t).
+  (forall t, ~ In t ts -> tget (s_toks s') t = tget (s_toks s) t) /\
+  s_id s' = s_id s.
 
 Lemma BB_nil s i : BB s i [] s [].
 Proof.
@@ -35,7 +36,8 @@ Lemma BB_cons s i hd rest s1 b s' bs :
   new_block s i hd = (s1, b) -> hd <> [] -> NoDup (hd ++ rest) ->
   BB s1 (i + 1) rest s' bs -> BB s i (hd ++ rest) s' (b :: bs).
 Proof.
-  intros Hn Hne ND (B1 & B2 & B3 & B4 & B5 & B6 & B7 & B8 & B9 & B10 & B11 & B12).
+  intros Hn Hne ND (B1 & B2 & B3 & B4 & B5 & B6 & B7 & B8 & B9 & B10 & B11 & B12 & B13).
+  pose proof (new_block_sid _ _ _ _ _ Hn) as Esid.
   destruct (new_block_spec _ _ _ _ _ Hn) as (Eb & En & Ebl & Eln & Etk & Eh & Et & Ei & Hc).
   apply NoDup_app_iff in ND as (NDh & NDr & Dis).
   assert (b < s_next s1)%positive as Hb1 by lia.
@@ -54,10 +56,10 @@ Proof.
     + unfold toks. rewrite B6 by assumption. reflexivity.
     + unfold bsz. rewrite B6 by assumption. reflexivity.
     + unfold blnl. rewrite B6 by assumption. reflexivity.
-    + intros t Ht. rewrite Et in Ht. unfold hnd, tsz. rewrite B12 by (apply Dis; assumption). auto. }
+    + intros t Ht. rewrite Et in Ht. split; [apply hnd_ext_tget; [exact B13|]|unfold tsz]; rewrite B12 by (apply Dis; assumption); reflexivity. }
   split. { intros _. discriminate. }
   split. { intro t. destruct (B11 t) as [-> ->]. unfold tsz, txt. rewrite Etk. split; [apply rehandle_size|apply rehandle_text]. }
-  intros t Ht. rewrite B12 by (intro; apply Ht; apply in_or_app; auto).
+  split; [|congruence]. intros t Ht. rewrite B12 by (intro; apply Ht; apply in_or_app; auto).
   rewrite Etk. apply rehandle_other. intro; apply Ht; apply in_or_app; auto.
 Qed.
 
